@@ -43,6 +43,12 @@ import (
 // the check verifies the mirror against observable behaviour.
 const checkpointInterval = 100000
 
+// viol reports a violation and counts it per key (vf keeps at most 3 replays per key / 25 per run).
+func viol(c *vf.Ctx, key string, w any, format string, a ...any) {
+	c.Count("violations:"+key, 1)
+	c.Violation(key, w, format, a...)
+}
+
 func init() {
 	vf.Register(&vf.Check{
 		ID:    "C41",
@@ -162,13 +168,13 @@ func (br *bsRun) verifyAll(bs *store.BlockStore, reopened bool, after int64) {
 		tag = "reopened:"
 	}
 	if got := bs.Height(); got != br.height {
-		c.Violation(tag+"height-mismatch", br.w("after_save", after, "got", got, "want", br.height), "Height() = %d after saving up to %d", got, br.height)
+		viol(c, tag+"height-mismatch", br.w("after_save", after, "got", got, "want", br.height), "Height() = %d after saving up to %d", got, br.height)
 	}
 	for _, sb := range br.saved {
 		h := sb.height
 		later := after > h
 		fail := func(api string, format string, a ...any) {
-			c.Violation(tag+"load-mismatch:"+api, br.w("api", api, "height", h, "after_save", after), "%s(%d) after saving %d: %s", api, h, after, fmt.Sprintf(format, a...))
+			viol(c, tag+"load-mismatch:"+api, br.w("api", api, "height", h, "after_save", after), "%s(%d) after saving %d: %s", api, h, after, fmt.Sprintf(format, a...))
 		}
 		var blk *types.Block
 		var meta *types.BlockMeta
@@ -180,7 +186,7 @@ func (br *bsRun) verifyAll(bs *store.BlockStore, reopened bool, after int64) {
 			sc = bs.LoadSeenCommit(h)
 		})
 		if pv != nil {
-			c.Violation(tag+"load-panic", br.w("height", h, "after_save", after), "loading height %d panicked: %v", h, pv)
+			viol(c, tag+"load-panic", br.w("height", h, "after_save", after), "loading height %d panicked: %v", h, pv)
 			continue
 		}
 		c.Case(fmt.Sprintf("%s/%s%d/%d/LoadBlock", br.key, tag, after, h), later)
@@ -219,7 +225,7 @@ func (br *bsRun) verifyAll(bs *store.BlockStore, reopened bool, after int64) {
 		for i, pb := range sb.parts {
 			var part *types.Part
 			if pv := vf.Try(func() { part = bs.LoadBlockPart(h, i) }); pv != nil {
-				c.Violation(tag+"load-panic", br.w("height", h, "part", i), "LoadBlockPart(%d,%d) panicked: %v", h, i, pv)
+				viol(c, tag+"load-panic", br.w("height", h, "part", i), "LoadBlockPart(%d,%d) panicked: %v", h, i, pv)
 				continue
 			}
 			c.Case(fmt.Sprintf("%s/%s%d/%d/LoadBlockPart/%d", br.key, tag, after, h, i), later || i > 0)
@@ -253,7 +259,7 @@ func (br *bsRun) verifyAll(bs *store.BlockStore, reopened bool, after int64) {
 		})
 		c.Case(fmt.Sprintf("%s/%s%d/absent/%d", br.key, tag, after, h), false)
 		if pv != nil || blk != nil || meta != nil || sc != nil || p0 != nil {
-			c.Violation(tag+"absent-height-loads", br.w("height", h, "after_save", after), "height %d was never saved but loads (panic=%v block=%v meta=%v seen=%v part=%v)", h, pv, blk != nil, meta != nil, sc != nil, p0 != nil)
+			viol(c, tag+"absent-height-loads", br.w("height", h, "after_save", after), "height %d was never saved but loads (panic=%v block=%v meta=%v seen=%v part=%v)", h, pv, blk != nil, meta != nil, sc != nil, p0 != nil)
 		}
 		c.Count("bs_absent_loads", 1)
 	}
@@ -261,7 +267,7 @@ func (br *bsRun) verifyAll(bs *store.BlockStore, reopened bool, after int64) {
 	var top *types.Commit
 	vf.Try(func() { top = bs.LoadBlockCommit(br.height) })
 	if top != nil {
-		c.Violation(tag+"absent-height-loads", br.w("height", br.height), "LoadBlockCommit(%d) exists before block %d was saved", br.height, br.height+1)
+		viol(c, tag+"absent-height-loads", br.w("height", br.height), "LoadBlockCommit(%d) exists before block %d was saved", br.height, br.height+1)
 	}
 }
 
@@ -272,11 +278,11 @@ func (br *bsRun) rejected(r *rand.Rand, partSize int) {
 		pv := vf.Try(f)
 		c.Case(fmt.Sprintf("%s/reject/%s/%d", br.key, kind, H), true)
 		if pv == nil {
-			c.Violation("bad-save-accepted:"+kind, br.w("kind", kind, "store_height", H), "SaveBlock accepted a %s save at store height %d", kind, H)
+			viol(c, "bad-save-accepted:"+kind, br.w("kind", kind, "store_height", H), "SaveBlock accepted a %s save at store height %d", kind, H)
 		}
 		c.Count("bs_rejected_saves", 1)
 		if got := br.bs.Height(); got != H {
-			c.Violation("height-changed-by-rejected-save:"+kind, br.w("kind", kind, "got", got, "want", H), "Height() = %d after a rejected %s save (was %d)", got, kind, H)
+			viol(c, "height-changed-by-rejected-save:"+kind, br.w("kind", kind, "got", got, "want", H), "Height() = %d after a rejected %s save (was %d)", got, kind, H)
 		}
 	}
 	for _, h := range []int64{H, H - 1, H + 2, H + 100} {
@@ -308,7 +314,7 @@ func blockChain(c *vf.Ctx, i int, r *rand.Rand) {
 		return m
 	}
 	if h := br.bs.Height(); h != 0 {
-		c.Violation("height-mismatch", br.w(), "empty store has height %d", h)
+		viol(c, "height-mismatch", br.w(), "empty store has height %d", h)
 	}
 	prevHeight := int64(0)
 	for k := 0; k < n; k++ {
@@ -316,12 +322,12 @@ func blockChain(c *vf.Ctx, i int, r *rand.Rand) {
 		b, ps, seen := makeBlock(r, h, k == 0, partSize)
 		sb := record(b, ps, seen)
 		if pv := vf.Try(func() { br.bs.SaveBlock(b, ps, seen) }); pv != nil {
-			c.Violation("save-panic", br.w("height", h), "SaveBlock(%d) panicked: %v", h, pv)
+			viol(c, "save-panic", br.w("height", h), "SaveBlock(%d) panicked: %v", h, pv)
 			return
 		}
 		// inputs not modified
 		if !bytes.Equal(amino.MustMarshalSized(b), sb.blockBytes) || !bytes.Equal(amino.MustMarshal(seen), sb.seenCommit) {
-			c.Violation("save-mutates-input", br.w("height", h), "SaveBlock modified the block or the seen commit it was given")
+			viol(c, "save-mutates-input", br.w("height", h), "SaveBlock modified the block or the seen commit it was given")
 		}
 		br.saved = append(br.saved, sb)
 		br.byH[h] = sb
@@ -332,7 +338,7 @@ func blockChain(c *vf.Ctx, i int, r *rand.Rand) {
 			c.Count("bs_multipart_blocks", 1)
 		}
 		if got := br.bs.Height(); got < prevHeight {
-			c.Violation("height-decreased", br.w("got", got, "prev", prevHeight), "Height() went from %d to %d", prevHeight, got)
+			viol(c, "height-decreased", br.w("got", got, "prev", prevHeight), "Height() went from %d to %d", prevHeight, got)
 		}
 		prevHeight = br.bs.Height()
 		br.verifyAll(br.bs, false, h)
